@@ -109,6 +109,26 @@ pub fn arity_documents() -> Vec<String> {
     out
 }
 
+/// files whose line numbers differ by a power of two (2^8 .. 2^63): anything that keys a table by a narrower integer than
+/// the 64-bit line number confuses the two lines; every line carries a diagnostic or a use that locates one
+pub fn aliasing_document(rng: &mut Rng) -> String {
+    let k = rng.pick(&[8u32, 16, 31, 32, 32, 32, 33, 53, 63]);
+    let base = rng.pick(&[0u64, 7, 10, 255, 65535]);
+    let hi = base.wrapping_add(1u64 << k);
+    let bodies = ["A = \"x\"", "REM HI", "PRINT 1; 2; 3; Y", "PRINT X", "PRINT \"é\" + 1", "X = 1 +", "GOTO 5", "PRINT Q(1, 2)", "NEXT Z"];
+    let mut lines = vec![format!("{} {}", base, rng.pick(&bodies)), format!("{} {}", hi, rng.pick(&bodies))];
+    if rng.chance(1, 2) {
+        lines.swap(0, 1);
+    }
+    if rng.chance(1, 2) {
+        lines.push(format!("{} {}", base + 1, rng.pick(&bodies)));
+    }
+    if rng.chance(1, 3) {
+        lines.insert(0, format!("{} {}", hi.wrapping_add(1u64 << k.min(62)), rng.pick(&bodies)));
+    }
+    lines.join("\n")
+}
+
 fn analyze_op(doc: &str) -> String {
     if doc.is_empty() {
         "analyze".to_string()
@@ -142,6 +162,10 @@ pub fn c05_cases(rng: &mut Rng, tier: &str) -> (Vec<Case>, bool) {
     for d in arity_documents() {
         cases.push(Case { ops: vec![analyze_op(&d)], checks: vec!["analysis-wellformed 0".into()], tag: "function-arity".into(), nontrivial: true, show: d.replace('\n', " | ") });
     }
+    for _ in 0..(n / 15).max(40) {
+        let d = aliasing_document(rng);
+        cases.push(Case { ops: vec![analyze_op(&d)], checks: vec!["analysis-wellformed 0".into()], tag: "aliasing-line-numbers".into(), nontrivial: true, show: d.replace('\n', " | ") });
+    }
     for _ in 0..(n / 150).max(6) {
         let d = long_document(rng);
         cases.push(Case { ops: vec![analyze_op(&d)], checks: vec!["analysis-wellformed 0".into()], tag: "long-file".into(), nontrivial: true, show: format!("{} lines: {:?}…", d.lines().count(), d.chars().take(80).collect::<String>()) });
@@ -161,6 +185,9 @@ pub fn c20_cases(rng: &mut Rng, tier: &str) -> (Vec<Case>, bool) {
         // one server, a sequence of open + change notifications
         let k = rng.range(1, 8);
         let mut ops = vec!["new 0 0".to_string()];
+        if rng.chance(1, 2) {
+            ops.push(format!("lsphello {}", rng.below(5)));
+        }
         let mut checks = vec![];
         let mut show = vec![];
         for _ in 0..k {
@@ -171,6 +198,7 @@ pub fn c20_cases(rng: &mut Rng, tier: &str) -> (Vec<Case>, bool) {
                 3 => "10 A$ = \"😀é\" : PRINT A$ + 1\r\n\r\n20 REM 日本語\n".to_string(),
                 4 => "10 REM café\u{2028}au lait\n20 PRINT \"x\u{2029}y\";A".to_string(),
                 5 if rng.chance(1, 4) => long_document(rng),
+                6 if rng.chance(1, 2) => aliasing_document(rng),
                 _ => document(rng),
             };
             ops.push(if d.is_empty() { "lsp".to_string() } else { format!("lsp {}", hexs(&d)) });
@@ -210,6 +238,16 @@ pub fn c20_cases(rng: &mut Rng, tier: &str) -> (Vec<Case>, bool) {
         }
         cases.push(Case { ops, checks, tag: "several-documents".into(), nontrivial: true, show: format!("{:?}", show) });
     }
+    // every handshake a client may open with, then documents with text outside ASCII before and inside the reported ranges
+    for hello in 0..5 {
+        let mut ops = vec!["new 0 0".to_string(), format!("lsphello {}", hello)];
+        let mut checks = vec![];
+        for d in ["10 PRINT \"é\" + 1", "10 DATA café, \"naïve\", 😀:PRINT 1 +", "10 REM 日本語\n20 A$ = \"😀é\" : PRINT A$ + 1", "10 PRINT \"ééé\"; X\n20 GOTO 99"] {
+            ops.push(format!("lsp {}", hexs(d)));
+            checks.push(format!("lsp-wellformed {}", ops.len() - 1));
+        }
+        cases.push(Case { ops, checks, tag: "handshakes".into(), nontrivial: true, show: format!("handshake {}", hello) });
+    }
     // the same document opened twice with different texts (with or without a close in between): the second open is
     // answered for ITS text - shorter, longer, clean after broken, broken after clean
     let pairs = [("10 PRINT \"é\" + 1\n20 GOTO 99\n30 X = 1.2.3", "10 PRINT 1"), ("10 PRINT 1", "10 PRINT \"é\" + 1\n20 GOTO 99"), ("10 REM a\n20 REM b\n30 PRINT \"x", ""), ("", "10 PRINT \"open")];
@@ -235,7 +273,7 @@ pub fn c06_cases(rng: &mut Rng, tier: &str) -> (Vec<Case>, bool) {
         let k = rng.range(1, 3);
         let mut parts = vec![];
         for _ in 0..k {
-            parts.push(match rng.below(15) {
+            parts.push(match rng.below(16) {
                 // valid but unusual operand positions: a unary operator right after a binary one, nested unary in arguments
                 14 => format!("PRINT {}", rng.pick(&["2 ^ -1", "10 ^ -N", "4 ^ +2", "7 ^ NOT F", "2 ^ 2 ^ -1", "3 * -2", "3 - -2", "1 AND NOT 0", "ABS(-3) ^ -1", "1 < -1", "\"a\" = \"a\" AND NOT \"\"", "INT(- .5)", "2 ^ -(1)", "- 2 ^ 2"])),
                 0..=3 => gen::simple_statement(rng).replace("RND(", "ABS("),
@@ -248,6 +286,19 @@ pub fn c06_cases(rng: &mut Rng, tier: &str) -> (Vec<Case>, bool) {
                 10 => format!("PRINT {}", rng.pick(&["(1", "1 +", ")", "1 2", "\"a\" \"b\"", ",,;", "A(", "A()", "A(1,)", "ABS()", "ABS(\"s\")", "INT(1,2)"])),
                 11 => format!("DIM {}", rng.pick(&["A(5)", "A$(2,2)", "A", "A(\"x\")", "5", "A(1)(2)"])),
                 12 => format!("READ {}", rng.pick(&["A", "A$, B", "A(1)", "5", ""])),
+                13 => {
+                    // every statement that takes a variable, with every shape of target: scalar, cell, cell of a cell, string
+                    // cell, parenthesised name, numeral - both walkers must accept and refuse the same shapes
+                    let t = rng.pick(&["A", "A(1)", "A(1, 2)", "A(1)(2)", "A$", "A$(1)", "(A)", "5", "A(\"x\")", "A(", "A()", "K(I + 1)"]);
+                    match rng.below(6) {
+                        0 => format!("FOR {} = 1 TO 3", t),
+                        1 => format!("READ {}", t),
+                        2 => format!("LET {} = 1", t),
+                        3 => format!("{} = 1", t),
+                        4 => format!("DIM {}", t),
+                        _ => format!("FOR I = {} TO {} STEP {}", t, t, t),
+                    }
+                }
                 _ => format!("{} {}", rng.pick(&["LET", "LET X", "LET X =", "X", "X =", "= 1", "X = 1 = ", "FOO BAR"]), ""),
             });
         }
